@@ -1,0 +1,108 @@
+//! Verification hook H2 (`verif_hooks` feature only): blocking checkpoints in the acceptor and
+//! worker threads, used by a model-checking harness to control the interleaving of the server's
+//! OS threads.
+//!
+//! When no harness is attached (the default) [`checkpoint`] is a no-op.
+use std::net::SocketAddr;
+use std::sync::atomic::{AtomicBool, Ordering};
+use std::sync::mpsc::{Receiver, Sender, channel};
+use std::sync::{Arc, Condvar, Mutex};
+
+/// Which kind of message an event loop picked from its inboxes.
+#[derive(Debug, Clone, Copy, PartialEq, Eq, Hash)]
+pub enum MsgKind {
+    /// A shutdown command.
+    Shutdown,
+    /// A connection with the given peer address.
+    Conn(SocketAddr),
+    /// Anything else (e.g. a failed accept task).
+    Other,
+}
+
+/// An instrumented place in the server.
+#[derive(Debug, Clone, Copy, PartialEq, Eq, Hash)]
+pub enum Point {
+    /// Top of the acceptor event loop.
+    ALoop,
+    /// The acceptor's `poll_fn` returned this message.
+    AMsg(MsgKind),
+    /// The acceptor put the connection in the queue of the worker with this id.
+    ADispatched(SocketAddr, usize),
+    /// The acceptor dropped the connection (all queues full).
+    ADropped(SocketAddr),
+    /// `Acceptor::shutdown`: listeners dropped, a shutdown command is queued at every worker.
+    AShutdownSent,
+    /// Top of the event loop of the worker with this id.
+    WLoop(usize),
+    /// The worker's `poll_fn` returned this message.
+    WMsg(usize, MsgKind),
+    /// The worker finished the drain loop of a graceful shutdown; `n` connections were started.
+    WDrained(usize, usize),
+}
+
+/// Handle used by the harness to let the thread blocked at a checkpoint continue.
+#[derive(Debug, Clone)]
+pub struct Release(Arc<(Mutex<bool>, Condvar)>);
+
+impl Release {
+    /// Let the blocked thread continue.
+    pub fn release(&self) {
+        let (m, c) = &*self.0;
+        *m.lock().unwrap_or_else(|e| e.into_inner()) = true;
+        c.notify_all();
+    }
+}
+
+/// An event sent to the harness: the thread is blocked until `release` is called.
+#[derive(Debug)]
+pub struct Event {
+    /// Where the thread is.
+    pub point: Point,
+    /// Releases it.
+    pub release: Release,
+}
+
+static ATTACHED: AtomicBool = AtomicBool::new(false);
+static SINK: Mutex<Option<Sender<Event>>> = Mutex::new(None);
+
+/// Attach a harness: from now on every checkpoint blocks until released.
+/// Only one harness (and one server) per process at a time.
+pub fn attach() -> Receiver<Event> {
+    let (tx, rx) = channel();
+    *SINK.lock().unwrap_or_else(|e| e.into_inner()) = Some(tx);
+    ATTACHED.store(true, Ordering::SeqCst);
+    rx
+}
+
+/// Detach the harness: checkpoints become no-ops again. Threads that are blocked stay blocked
+/// until their `Release` is used.
+pub fn detach() {
+    ATTACHED.store(false, Ordering::SeqCst);
+    *SINK.lock().unwrap_or_else(|e| e.into_inner()) = None;
+}
+
+/// Report `point` to the harness and block the calling OS thread until released.
+pub fn checkpoint(point: Point) {
+    if !ATTACHED.load(Ordering::SeqCst) {
+        return;
+    }
+    let tx = match &*SINK.lock().unwrap_or_else(|e| e.into_inner()) {
+        Some(tx) => tx.clone(),
+        None => return,
+    };
+    let cell = Arc::new((Mutex::new(false), Condvar::new()));
+    if tx
+        .send(Event {
+            point,
+            release: Release(cell.clone()),
+        })
+        .is_err()
+    {
+        return;
+    }
+    let (m, c) = &*cell;
+    let mut released = m.lock().unwrap_or_else(|e| e.into_inner());
+    while !*released {
+        released = c.wait(released).unwrap_or_else(|e| e.into_inner());
+    }
+}
